@@ -7,7 +7,6 @@ from typing import Any, ClassVar
 
 from tree_sitter import Node
 
-from nix_manipulator.exceptions import ResolutionError
 from nix_manipulator.expressions.assertion import Assertion
 from nix_manipulator.expressions.binding import Binding
 from nix_manipulator.expressions.expression import NixExpression
@@ -31,7 +30,6 @@ from nix_manipulator.expressions.trivia import (
 from nix_manipulator.expressions.with_statement import WithStatement
 from nix_manipulator.mapping import tree_sitter_node_to_expression
 from nix_manipulator.resolution import (
-    attach_resolution_context,
     scopes_for_owner,
     set_resolution_context,
 )
@@ -206,11 +204,8 @@ class NixSourceCode:
             visited.add(id(target))
 
             if scopes is None:
-                try:
-                    scopes = scopes_for_owner(target)
-                except ResolutionError:
-                    # An unresolvable `with` environment is opaque, not fatal.
-                    scopes = ()
+                # An unresolvable `with` environment is opaque, not fatal.
+                scopes = scopes_for_owner(target, strict=False)
 
             def resolve_nested(expr, *, scopes=scopes):
                 return resolve_from_expr(expr, scopes=scopes)
@@ -244,11 +239,9 @@ class NixSourceCode:
                             "Top-level expression must be an attribute set"
                         ) from exc
                 case WithStatement():
-                    try:
-                        body_scopes = scopes_for_owner(target) or scopes
-                        attach_resolution_context(target.body, owner=target)
-                    except ResolutionError:
-                        body_scopes = scopes
+                    body_scopes = scopes_for_owner(target, strict=False) or scopes
+                    if body_scopes:
+                        set_resolution_context(target.body, body_scopes)
                     return resolve_from_expr(target.body, scopes=body_scopes)
                 case Identifier():
                     identifier_scopes = scopes or scopes_for_owner(target)
